@@ -226,6 +226,13 @@ def send_harness(I, states=(6, 7, 10, 11, 12, 17)):
     I.ctx.notes.append(("outcome", out[0] if out[0] == "ret" else "raise:" + out[1].name()))
     W = I.ctx.ghost["W"]
     cl = [("send.at_most_one_frame_per_call", len(W) <= 1), ("lemma.pad3_three_digits", pad3_lemma())]
+    if out[0] == "raise" and out[1].name() == "EncodingError":
+        # "refused with an error instead of being transmitted": nothing written, and the refusal takes nothing - the next
+        # outbound number and the stored counter are what they were (also for a message that carries its own number:
+        # PossDupFlag=Y / SequenceReset), so the next message does not collide with a number already used
+        post = sc.eview(I, conn, out)
+        cl.append(("send.refused_text_writes_nothing", len(W) == 0))
+        cl.append(("send.refused_text_consumes_no_number", And(Eq(post.nout, pre.nout), Eq(post.J_out, pre.J_out))))
     for B in W:
         okb = isinstance(B, SStr) and B.is_bytes
         cl.append(("send.hands_bytes_to_the_transport", okb))
